@@ -7,7 +7,7 @@
      implementation sent to the backend at the same call index, otherwise the oracle answers with an
      ill-shaped triple and the model run ends in Err. *)
 From Coq Require Import List Arith ZArith QArith Qabs Bool.
-From TLV Require Import Base.Shape Base.PyList Base.Tensor Base.Ops Model.SvdDecomp Model.SvdDecompSymeig Model.SvdDecompRand Corr.Common.
+From TLV Require Import Base.Shape Base.PyList Base.Tensor Base.Ops Model.SvdDecomp Model.SvdDecompSymeig Model.SvdDecompRand Model.SvdDecompRingReq Corr.Common.
 Import ListNotations.
 
 Definition atol : Q := Qmake 1%Z 1000000000%positive.
@@ -72,7 +72,8 @@ Definition tape_rand (tape : list tape_entry) (k : nat) (M : tensor Q) : ans :=
 Definition atol_s : Q := Qmake 1%Z 10000000%positive.
 Definition rtol_s : Q := Qmake 1%Z 10000000%positive.
 
-Inductive kind := KTT | KTTM | KTR (mode : nat) | KTucker (n_iter : nat) | KStrict | KSym (k : kind) | KRand (k : kind).
+Inductive kind := KTT | KTTM | KTR (mode : nat) | KTucker (n_iter : nat) | KStrict | KSym (k : kind) | KRand (k : kind)
+              | KFullReq (mode : nat).
 Inductive outcome := OErr | OFactors (fs : list (tensor Q)) | OTucker (core : tensor Q) (fs : list (tensor Q))
                  | ORanks (strict realised : list nat).
 
@@ -110,6 +111,9 @@ Definition agree_kind (sv : nat -> tensor Q -> ans) (fa : list (tensor Q) -> lis
                    all2 Nat.eqb (validate_tt_rank_strict_code (shape X) rk) strict &&
                    all2 Nat.eqb (realised_tt_rank (shape X) rk) realised
                | Err, OErr => true | _, _ => false end
+  (* a tensor_ring input the harness labels "sufficient": the decidable premise of C09_tensor_ring_exact_full_request must hold
+     (only the shape of X is used) *)
+  | KFullReq mode => tr_full_requestb X rank mode
   | KSym _ => false
   | KRand _ => false
   end.
